@@ -868,6 +868,76 @@ Example fill_example :
   /\ shape (tokenize (fill segs [104; 34; 62; 60; 120; 62])) <> [KText; KTag; KText; KTag; KText].
 Proof. vm_compute. split; [reflexivity|discriminate]. Qed.
 
+(* ================================================================ Request.host never raises *)
+
+Lemma split_on_nonempty c s : split_on c s <> [].
+Proof.
+  destruct s as [|x r]; cbn [split_on]; [discriminate|].
+  destruct (x =? c); [discriminate|]. destruct (split_on c r); discriminate.
+Qed.
+
+Lemma split_on_two c s : In c s -> (2 <= length (split_on c s))%nat.
+Proof.
+  induction s as [|x r IH]; intros H; [contradiction|].
+  cbn [split_on]. destruct (x =? c) eqn:E.
+  - cbn [length]. pose proof (split_on_nonempty c r) as Hn. destruct (split_on c r); [contradiction|cbn [length]; lia].
+  - destruct H as [H|H]; [subst x; rewrite Z.eqb_refl in E; discriminate|].
+    specialize (IH H). destruct (split_on c r) as [|p ps]; [cbn in IH; lia|exact IH].
+Qed.
+
+Lemma nth_error_some {X} (l : list X) n : (n < length l)%nat -> exists x, nth_error l n = Some x.
+Proof.
+  intros H. destruct (nth_error l n) eqn:E; [eexists; reflexivity|].
+  apply nth_error_None in E. lia.
+Qed.
+
+Lemma existsb_eqb_In c s : existsb (Z.eqb c) s = true -> In c s.
+Proof.
+  intros H. apply existsb_exists in H. destruct H as [x [Hx E]]. apply Z.eqb_eq in E. subst x. exact Hx.
+Qed.
+
+Lemma host_total e : host e <> None.
+Proof.
+  unfold host. destruct (x_fwd_host e) as [h|].
+  - pose proof (split_on_nonempty 44 h) as Hn. destruct (split_on 44 h); [contradiction|]. cbn [nth_error]. discriminate.
+  - destruct (http_host e) as [h|]; [|discriminate].
+    destruct (existsb (Z.eqb 58) h) eqn:E; [|discriminate].
+    pose proof (split_on_two 58 h (existsb_eqb_In 58 h E)) as H2.
+    destruct (nth_error_some (split_on 58 h) 1) as [port Hp]; [lia|]. rewrite Hp.
+    destruct (default_port (url_scheme e) port); [|discriminate].
+    destruct (nth_error_some (split_on 58 h) 0) as [h0 H0]; [lia|]. rewrite H0. discriminate.
+Qed.
+
+Lemma host_url_total e : host_url e <> None.
+Proof. unfold host_url. pose proof (host_total e) as H. destruct (host e); [discriminate|contradiction]. Qed.
+
+(* joining the pieces with the separator gives the string back: split_on loses nothing *)
+Fixpoint join_with (c : Z) (l : list str) : str :=
+  match l with [] => [] | [p] => p | p :: ps => p ++ c :: join_with c ps end.
+
+Lemma split_on_join c s : join_with c (split_on c s) = s.
+Proof.
+  induction s as [|x r IH]; [reflexivity|].
+  cbn [split_on]. destruct (x =? c) eqn:E.
+  - apply Z.eqb_eq in E. subst x. pose proof (split_on_nonempty c r) as Hn.
+    destruct (split_on c r) as [|p ps] eqn:Es; [contradiction|]. cbn [join_with app]. cbn [join_with] in IH. rewrite IH. reflexivity.
+  - pose proof (split_on_nonempty c r) as Hn. destruct (split_on c r) as [|p ps] eqn:Es; [contradiction|].
+    destruct ps as [|q qs]; cbn [join_with app] in *; rewrite IH; reflexivity.
+Qed.
+
+(* IPv6 literal with port: [2001:db8::1]:8080 with scheme http *)
+Example host_ipv6_example :
+  host {| x_fwd_host := None; http_host := Some [91; 50; 48; 48; 49; 58; 100; 98; 56; 58; 58; 49; 93; 58; 56; 48; 56; 48];
+          x_fwd_proto := None; wsgi_scheme := s_http; server_name := []; server_port := [] |}
+  = Some [91; 50; 48; 48; 49; 58; 100; 98; 56; 58; 58; 49; 93; 58; 56; 48; 56; 48].
+Proof. vm_compute. reflexivity. Qed.
+
+Example host_default_port_example :   (* localhost:80 with http gives localhost *)
+  host {| x_fwd_host := None; http_host := Some [108; 111; 99; 97; 108; 104; 111; 115; 116; 58; 56; 48];
+          x_fwd_proto := None; wsgi_scheme := s_http; server_name := []; server_port := [] |}
+  = Some [108; 111; 99; 97; 108; 104; 111; 115; 116].
+Proof. vm_compute. reflexivity. Qed.
+
 (* ================================================================ non-vacuity *)
 
 (* <b a="1">&'  *)
